@@ -11,11 +11,11 @@ EXTENDS ClientSession, AckWindow, Amf0, Names, Json, IOUtils
 Rec == ndJsonDeserialize(IOEnv.TRACE)
 NRec == Len(Rec)
 
-VARIABLES l, st, win, pend, prevProbe, dead, fin
-vars == <<l, st, win, pend, prevProbe, dead, fin>>
+VARIABLES l, st, win, pend, prevProbe, dead, fin, cfg
+vars == <<l, st, win, pend, prevProbe, dead, fin, cfg>>
 Ev == Rec[l]
 
-Init == l = 1 /\ st = CliInit /\ win = <<>> /\ pend = Zero /\ prevProbe = <<>> /\ dead = FALSE /\ fin = FALSE
+Init == l = 1 /\ st = CliInit /\ win = <<>> /\ pend = Zero /\ prevProbe = <<>> /\ dead = FALSE /\ fin = FALSE /\ cfg = <<>>
 
 Say(class, why) == PrintT("@@VERDICT|" \o class \o "|" \o why \o "|" \o ToString(l))
 
@@ -49,6 +49,31 @@ OutMatch(e, x) ==
       [] OTHER -> FALSE
 
 \* the "requests" C10 speaks of: connect / createStream / play / publish / deleteStream commands and published media
+\* ---- SHAPE diagnostics (beyond the listed properties; spec_drift only)
+KindOf(x) ==
+    IF x.msg.k = "UserControl" THEN "UC:" \o x.msg.et
+    ELSE IF x.msg.k = "Command" THEN
+        (IF CmdIs(x, N_connect) THEN "connect" ELSE IF CmdIs(x, N_createStream) THEN "createStream" ELSE IF CmdIs(x, N_play) THEN "play"
+         ELSE IF CmdIs(x, N_publish) THEN "publish" ELSE IF CmdIs(x, N_deleteStream) THEN "deleteStream" ELSE "Command")
+    ELSE x.msg.k
+Kinds(outs) == [k \in 1 .. Len(outs) |-> KindOf(outs[k])]
+ClockOK(outs, clk) == \A k \in 1 .. Len(outs) :
+    outs[k].msg.k \in {"Audio", "Video", "SetChunkSize", "Undecodable"} \/ outs[k].ts = clk
+\* what the usual reaction to an input consists of (only for the inputs listed)
+UsualShape(obs) ==
+    IF \E k \in 1 .. Len(obs) : obs[k].o = "ConnAccepted" THEN <<"WinAck", "SetChunkSize">>
+    ELSE IF \E k \in 1 .. Len(obs) : obs[k].o = "OutPlay" THEN <<"UC:SetBufferLength", "play">>
+    ELSE IF \E k \in 1 .. Len(obs) : obs[k].o = "OutPublish" THEN <<"publish">>
+    ELSE IF \E k \in 1 .. Len(obs) : obs[k].o = "OutConnect" THEN <<"connect">>
+    ELSE IF \E k \in 1 .. Len(obs) : obs[k].o = "OutCreateStream" THEN <<"createStream">>
+    ELSE IF \E k \in 1 .. Len(obs) : obs[k].o = "OutDeleteStream" THEN <<"deleteStream">>
+    ELSE <<"?">>
+ShapeOK(obs, outs) ==
+    LET u == UsualShape(obs) IN
+    u = <<"?">> \/ (/\ Kinds(outs) = u
+                     /\ (u = <<"WinAck", "SetChunkSize">> => outs[1].msg.v = cfg.win /\ outs[2].msg.v = <<cfg.cs \div 65536, cfg.cs % 65536>>)
+                     /\ (u = <<"UC:SetBufferLength", "play">> => outs[1].msg.buf = <<cfg.buf>>))
+
 IsRequest(x) ==
     \/ x.msg.k \in {"Audio", "Video"}
     \/ x.msg.k = "Command" /\ \E nm \in {N_connect, N_createStream, N_play, N_publish, N_deleteStream} : BytesEq(x.msg.name, Lit(nm))
@@ -90,6 +115,7 @@ Advance == l' = l + 1 /\ UNCHANGED fin
 DoNew ==
     /\ st' = CliInit /\ win' = <<>> /\ pend' = Zero /\ prevProbe' = Ev.probe /\ dead' = FALSE
     /\ IF Ev.res # "ok" THEN Say("CLI", "session construction failed: " \o Ev.res) ELSE TRUE
+    /\ cfg' = Ev.cfg
     /\ Advance
 
 DoStep ==
@@ -136,12 +162,15 @@ DoStep ==
                                          ELSE "window reached: exactly one acknowledgement carrying the byte count must be emitted by this call")
                ELSE TRUE
             /\ IF verdictCli = "" /\ ~ProbeOK(Ev.probe, r.st) THEN Say("PROBE", "session state differs from the model after " \o i0.m) ELSE TRUE
+            /\ IF verdictCli = "" /\ ~ClockOK(SelectSeq(rs, LAMBDA x : x.k = "out"), Ev.clk) THEN Say("SHAPE", "a control message does not carry the session uptime (" \o i0.m \o ")") ELSE TRUE
+            /\ IF verdictCli = "" /\ ~wantErr /\ ~noEvent /\ ~ShapeOK(r.obs, gotO) THEN Say("SHAPE", "reaction to " \o i0.m \o " does not consist of the usual messages") ELSE TRUE
     /\ st' = r.st
     /\ prevProbe' = Ev.probe
     /\ win' = IF Ev.ev = "In" /\ i0.m = "winack" /\ Ev.res = "ok" THEN <<i0.v>> ELSE win
     /\ pend' = IF Ev.ev = "In" /\ i0.m = "winack" /\ win = <<>> THEN FromNat(Ev.probe.pending)
                ELSE IF ackBad THEN FromNat(Ev.probe.pending) ELSE a.pend
     /\ dead' = (dead \/ verdictCli # "")
+    /\ UNCHANGED cfg
     /\ Advance
 
 Step == /\ l <= NRec
@@ -149,7 +178,7 @@ Step == /\ l <= NRec
 
 Finish == /\ l = NRec + 1 /\ ~fin /\ fin' = TRUE
           /\ PrintT("@@ACCEPT|" \o ToString(NRec) \o "|0")
-          /\ UNCHANGED <<l, st, win, pend, prevProbe, dead>>
+          /\ UNCHANGED <<l, st, win, pend, prevProbe, dead, cfg>>
 Next == Step \/ Finish
 Spec == Init /\ [][Next]_vars
 =============================================================================
